@@ -1286,6 +1286,7 @@ def normalize_lines(events):
     out = [ev for ev in out if ctx_feasible(ev.ctx)]
     for ev in out:
         ev.ctx = tuple(c for c in ev.ctx if not _constant_true(c))
+    out = _zip_branches(out)
     out = _merge_complementary(out)
     for k, ev in enumerate(out):
         ev.order = k
@@ -1304,6 +1305,49 @@ def _constant_true(c):
         if ((isinstance(base, tuple) and base[0] == "lit" and base[1] is None) or nf_str(base) == "None") and not v:
             return True
     return False
+
+
+def _zip_branches(events):
+    """`if c { A1 A2 A3 } else { B1 B2 B3 }` with as many lines on either side is read line by line: a line both sides write is written
+    unconditionally (`A2 == B2`: the `pub struct N {` between two alternative attribute lines), the others alternate. The text of
+    either branch is unchanged; what changes is that a common line is not conditional."""
+    out = []
+    i, n = 0, len(events)
+    while i < n:
+        ev = events[i]
+        done = False
+        if ev.kind == "emit":
+            for depth in range(len(ev.ctx) - 1, -1, -1):
+                c = ev.ctx[depth]
+                if c[0] != "alt":
+                    continue
+                base = ev.ctx[:depth]
+                d1 = decision(c[1], c[2])
+                # the run under (base, c) and the run right after it under (base, not c)
+                j = i
+                while j < n and events[j].kind == "emit" and events[j].ctx[:depth] == base and len(events[j].ctx) > depth \
+                        and events[j].ctx[depth][0] == "alt" and decision(events[j].ctx[depth][1], events[j].ctx[depth][2]) == d1:
+                    j += 1
+                k = j
+                while k < n and events[k].kind == "emit" and events[k].ctx[:depth] == base and len(events[k].ctx) > depth \
+                        and events[k].ctx[depth][0] == "alt" and decision(events[k].ctx[depth][1], events[k].ctx[depth][2]) == (d1[0], not d1[1]):
+                    k += 1
+                A, B = events[i:j], events[j:k]
+                if A and B and len(A) == len(B) and len(A) > 1 and any(a.parts == b.parts and a.ctx[depth + 1:] == b.ctx[depth + 1:] for a, b in zip(A, B)) \
+                        and A[0].node is not B[0].node:
+                    for a, b in zip(A, B):
+                        if a.parts == b.parts and a.ctx[depth + 1:] == b.ctx[depth + 1:]:
+                            a.ctx = base + a.ctx[depth + 1:]
+                            out.append(a)
+                        else:
+                            out += [a, b]
+                    i = k
+                    done = True
+                    break
+        if not done:
+            out.append(ev)
+            i += 1
+    return out
 
 
 def _merge_complementary(events):
@@ -2031,8 +2075,9 @@ def field_summaries(F, struct_suffix, through_helpers=True):
         if b.get("vis") != "Public":
             return True
         # a plain constructor function (`fn new(a, b) -> S { S { a, b } }`): every field is a parameter, unconditionally
+        # (or a function of the parameters only: `rust_mod_name: format!("mod_{abbreviation}")`)
         xs = own.get(fn, [])
-        return len(xs) == 1 and not xs[0][1] and all(v[0] == "param" for v in xs[0][2].values())
+        return len(xs) == 1 and not xs[0][1] and all(all(r[0] in ("param", "lit", "const") for r in nf_roots(v)) and nf_roots(v) for v in xs[0][2].values())
 
     total = {fn: list(xs) for fn, xs in own.items()}
     # attribute helper constructions to their callers (bounded fixpoint)
